@@ -125,7 +125,7 @@ def _exc_text(spec, rail):
 # oracles
 # ------------------------------------------------------------------------------------------------
 
-def check_c01(spec, rec, out, cfgclass):
+def check_c01(spec, rec, out, cfgclass, generation_clauses=False):
     """Input rails gate every user message (clauses a-d of DESIGN C01)."""
     ev = normalise_events(spec, rec.events)
     in_inv = [e for e in ev if e["kind"] == "rail" and e["rail"].startswith("in")]
@@ -176,6 +176,19 @@ def check_c01(spec, rec, out, cfgclass):
                 out.violate("rewrite-leak", "%s:%s" % (cfgclass, g["task"]),
                             "turn %d %s: the input was rewritten to %r but the %s prompt still contains the original text (%s)" % (rec.t, rec.tok, final, g["task"], secret.group(0)))
                 break
+    # (e) what the rails approved is what generation works on: the first generation prompt of the turn carries the approved text
+    if generation_clauses and not blocked_by and gens:
+        g0 = min(gens, key=lambda g: g["idx"])
+        if rec.text.startswith("$"):
+            out.probe("user_text_begins_with_variable_syntax")
+        if final and final not in (g0.get("prompt") or ""):
+            out.violate("approved-text-not-generated-from", "%s:%s" % (cfgclass, g0.get("task")),
+                        "turn %d %s: the input rails approved %r but the first generation prompt (%s) does not contain it: %r" % (rec.t, rec.tok, final, g0.get("task"), (g0.get("prompt") or "")[-300:]))
+    # (f) an approved message is generated from: in the modes that answer through the LLM a turn that no rail rejected makes an LLM call
+    if generation_clauses and not blocked_by and not gens and v1 and spec.get("mode") in ("dialog", "single_call", "multistep", "passthrough", "passthrough_dialog") and rec.status == "ok" \
+            and not any(e.get("faulted") for e in ev):
+        out.violate("approved-text-not-generated-from", "%s:no-llm-call" % cfgclass,
+                    "turn %d %s: the input rails approved %r but no dialog/generation LLM call was made for the turn; reply %r" % (rec.t, rec.tok, final, rec.reply))
     if rec.t > 0:
         out.probe("later_turn_checked")
 
